@@ -155,6 +155,7 @@ namespace TR
 #endif
       if( c.fam == 0 ) return run_tree_act< p::nothing, mon_fix >( c, in, fuel_limit );
       if( c.fam == 5 ) return run_tree_act< act_bool, mon_fix >( c, in, fuel_limit );  // vetoing actions: a vetoed match must leave no node
+      if( c.fam == 6 ) return run_tree_act< act_bool0, mon_fix >( c, in, fuel_limit );  // the same through apply0 (the tree's control adaptor must hand the result on)
       return run_tree_act< act_apply, mon_fix >( c, in, fuel_limit );
    }
    // rules whose hooks parse_tree does not forward to the user control: unselected rules that are not leaves (documented
